@@ -53,13 +53,20 @@ func corpus(k int) *wd.Input {
 				{ID: 50, Members: []osm.Member{{Type: osm.ElementTypeWay, ID: 11}, {Type: osm.ElementTypeWay, ID: 14}, {Type: osm.ElementTypeNode, ID: 9}}, Tags: []osm.Tag{{Key: "type", Value: "route"}}},
 				{ID: 51, Members: []osm.Member{{Type: osm.ElementTypeRelation, ID: 50}, {Type: osm.ElementTypeRelation, ID: 70}, {Type: osm.ElementTypeWay, ID: 10}}, Tags: []osm.Tag{{Key: "type", Value: "route"}}},
 			}}
+	case 7: // strings on the boundaries of a length prefix: tokens of 127/128/255/256 bytes and a 16 KB value
+		long := func(n int) string { return wd.LongString(hx.NewRand(uint64(n)), n) }
+		nodes := append([]osm.Node(nil), sq...)
+		nodes[0].Tags = []osm.Tag{{Key: "amenity", Value: long(16384)}}
+		nodes[1].Tags = []osm.Tag{{Key: "amenity", Value: long(127 - 8)}, {Key: "shop", Value: long(128 - 5)}}
+		nodes[2].Tags = []osm.Tag{{Key: "amenity", Value: long(255 - 8)}, {Key: "shop", Value: long(256 - 5)}, {Key: "#" + long(300), Value: "yes"}}
+		return &wd.Input{Nodes: nodes, Ways: []osm.Way{way(10, []int{1, 2, 3}, osm.Tag{Key: "highway", Value: long(1000)}, osm.Tag{Key: long(256), Value: ""})}}
 	case 5: // closed way whose first node is missing (crashed the in-memory builder before C37's fix)
 		return &wd.Input{Nodes: sq[1:], Ways: []osm.Way{way(10, []int{1, 2, 3, 1})}}
 	}
 	return nil
 }
 
-const nCorpus = 7
+const nCorpus = 8
 
 func caseChild(arg string) string {
 	f := strings.Fields(arg)
@@ -116,8 +123,9 @@ func runInput(t *wd.Transcript, in *wd.Input, cores int) {
 		return
 	}
 	probes := wd.Probes(fs)
-	bd := wd.Dump(bw, probes, true)
-	cd := wd.Dump(cw, probes, true)
+	tq := wd.TagQueries(fs)
+	bd := wd.Dump(bw, probes, true, tq...)
+	cd := wd.Dump(cw, probes, true, tq...)
 	types := map[byte]bool{}
 	xref := false
 	for _, f := range fs {
